@@ -4,7 +4,7 @@ import sys, os, json, tempfile, shutil, importlib.util, dataclasses, copy
 import _checker_common as K
 
 RULE = ('generated dataclass modules: 1-5 fields from an annotation pool (classes, Optional, Union, List / list, Dict, Tuple, Set, Literal, '
-        'user classes, forward references naming a class of the module, Any), defaults and default factories, decorated base + decorated '
+        'user classes, forward references naming a class of the module, SELF-REFERENTIAL fields (List / Optional / Dict / Tuple / Union of the dataclass itself or of its decorated subclass, as forward reference or plain string, holding real instances of the generated class), Any), defaults and default factories, decorated base + decorated '
         'subclass (fields declared in the parent), slots / order / kw_only, type_safe on and off, a user __post_init__ that journals or raises; '
         'operations: constructor, copy_with (replacing each field in turn), deep_copy_with with and WITHOUT keywords after an in-place '
         'mutation of a mutable field, validate_types() on valid instances and after object.__setattr__ / in-place mutation; values conforming '
@@ -18,6 +18,11 @@ POOL = [('int', True), ('str', True), ('float', True), ('bool', True), ('List[in
         ('Optional[int]', True), ('Union[int, str]', True), ('Tuple[int, str]', True), ('Tuple[int, ...]', True), ('Set[int]', True), ('P', False),
         ('Any', True), ('Sequence[str]', True), ('int | None', True), ('Literal[1, 2]', True), ("List['C1']", False), ('Optional[P]', False),
         ('Dict[str, List[int]]', True), ('list[Optional[int]]', True)]
+# self-referential fields: the dataclass is then called SelfA (its decorated subclass SelfB); the class table holds two placeholder
+# classes of that shape, the context of the case binds their names, and real instances are substituted when values are built
+SELF_POOL_A = ["List['SelfA']", "Optional['SelfA']", "Dict[str, 'SelfA']", "Tuple['SelfA', ...]", "'SelfA'", "list['SelfA']",
+               "Union[int, 'SelfA']", "Optional[List['SelfA']]"]
+SELF_POOL_B = SELF_POOL_A + ["List['SelfB']", "Optional['SelfB']", "'SelfB'", "Dict[str, 'SelfB']"]
 PRELUDE = '''from typing import *
 import dataclasses
 from pedantic import frozen_dataclass, frozen_type_safe_dataclass
@@ -35,20 +40,24 @@ def gen_class(r, idx):
     order = r.random() < 0.2
     post = r.choice(['absent'] * 4 + ['runs', 'runs', 'raises'])
     shortcut = ts and not slots and not order and r.random() < 0.3
-    fields = [(f'f{i}', r.choice(POOL)[0]) for i in range(nf)]
+    selfref = r.random() < 0.3
+    an, bn = ('SelfA', 'SelfB') if selfref else (f'A{idx}', f'B{idx}')
+    def ann(pool):
+        return r.choice(pool) if selfref and r.random() < 0.6 else r.choice(POOL)[0]
+    fields = [(f'f{i}', ann(SELF_POOL_A)) for i in range(nf)]
     deco = '@frozen_type_safe_dataclass' if shortcut else f'@frozen_dataclass(type_safe={ts}, slots={slots}, order={order})'
-    lines = [deco, f'class A{idx}:']
+    lines = [deco, f'class {an}:']
     for n, a in fields:
         lines.append(f'    {n}: {a}')
     if post == 'runs':
         lines += ['    def __post_init__(self):', f'        J.append(("post", {idx}))']
     if post == 'raises':
         lines += ['    def __post_init__(self):', f'        J.append(("post", {idx}))', '        raise PostErr()']
-    cls = f'A{idx}'
+    cls = an
     if sub == 'deco_sub':
         ns = r.randint(1, 2)
-        own = [(f'g{i}', r.choice(POOL)[0]) for i in range(ns)]
-        lines += [f'@frozen_dataclass(type_safe={ts}, slots={slots})', f'class B{idx}(A{idx}):']
+        own = [(f'g{i}', ann(SELF_POOL_B)) for i in range(ns)]
+        lines += [f'@frozen_dataclass(type_safe={ts}, slots={slots})', f'class {bn}({an}):']
         for n, a in own:
             lines.append(f'    {n}: {a}')
         own_post = r.choice(['absent', 'absent', 'runs', 'raises'])      # the derived class may define its own __post_init__ (overrides the inherited one)
@@ -58,8 +67,8 @@ def gen_class(r, idx):
         if own_post == 'raises':
             lines += ['    def __post_init__(self):', f'        J.append(("post", {idx}))', '        raise PostErr()']
             post = 'raises'
-        cls = f'B{idx}'
-    return {'src': '\n'.join(lines) + '\n', 'cls': cls, 'ts': ts, 'post': post, 'idx': idx}
+        cls = bn
+    return {'src': '\n'.join(lines) + '\n', 'cls': cls, 'ts': ts, 'post': post, 'idx': idx, 'selfref': selfref}
 
 
 def load(src, tag):
@@ -102,6 +111,8 @@ def gen_ops(r, fterms):
                 out[n] = K.lit(0)               # one-shot iterators cannot be deep-copied: not a dataclass field value here
         return out
     def corrupt(v):
+        if v[0] == 'inst' and K.CLASSES[v[1]] is K.SelfB and r.random() < 0.5:
+            return ['inst', K.IDX[K.SelfA]]             # an instance of the base class is no instance of the subclass
         try:
             c = K.canon_term(K.corrupt_term(r, v))
         except TypeError:
@@ -141,7 +152,18 @@ def execute(mod, clsname, op, post):
     del mod.J[:]
     # decoys: the frame that calls the constructor holds unrelated objects under the names the field annotations refer to
     # (forward references must resolve in the module that defines the dataclass, not in whoever happens to call it)
-    P = C1 = C2 = G = U = MI = str                                                             # noqa: F841
+    P = C1 = C2 = G = U = MI = SelfA = SelfB = str                                             # noqa: F841
+
+    def leaf(c):
+        """an instance of the generated dataclass itself, as a field value (made without running __init__ / __post_init__)"""
+        o = object.__new__(c)
+        for f in dataclasses.fields(c):
+            object.__setattr__(o, f.name, None)
+        return o
+    K.INST_FACTORY.clear()
+    for ph in (K.SelfA, K.SelfB):
+        if hasattr(mod, ph.__name__):
+            K.INST_FACTORY[ph] = (lambda c: lambda: leaf(c))(getattr(mod, ph.__name__))
 
     def build(vals):
         return {n: K.build_val(t) for n, t in vals.items()}
@@ -177,6 +199,15 @@ def execute(mod, clsname, op, post):
         return {'out': 'INSTANCE' if type(obj) is cls else 'OTHER', 'journal': len(mod.J)}
     except BaseException as e:
         return {'out': classify(e), 'journal': len(mod.J)}
+    finally:
+        K.INST_FACTORY.clear()
+
+
+def case_env(mod):
+    """the class table of the case: the module's globals bind the names of the generated classes"""
+    env = K.env_json()
+    extra = [[K.nid(ph.__name__), K.IDX[ph]] for ph in (K.SelfA, K.SelfB) if hasattr(mod, ph.__name__)]
+    return env if not extra else {**env, 'ctx': env['ctx'] + extra}
 
 
 def build_cases(rng, n, tag):
@@ -190,11 +221,18 @@ def build_cases(rng, n, tag):
         try:
             cls = getattr(mod, C['cls'])
             fterms = field_terms(cls)
-            for op in gen_ops(rng, fterms):
+            env = case_env(mod)
+            K.EXTRA_CTX.clear()
+            K.EXTRA_CTX.update({ph.__name__: ph for ph in (K.SelfA, K.SelfB) if hasattr(mod, ph.__name__)})
+            try:
+                ops = gen_ops(rng, fterms)
+            finally:
+                K.EXTRA_CTX.clear()
+            for op in ops:
                 impl = execute(mod, C['cls'], op, C['post'])
                 post = C['post'] if C['post'] != 'raises' else ['raises', 0]
                 cases.append({'m': 'typesafe',
-                              'c': {'env': K.env_json(), 'fields': [[K.nid(nm), t, op['vals'][nm]] for nm, t in fterms], 'typeSafe': C['ts'],
+                              'c': {'env': env, 'fields': [[K.nid(nm), t, op['vals'][nm]] for nm, t in fterms], 'typeSafe': C['ts'],
                                     'post': post, 'path': op['path']},
                               'x': {'src': C['src'], 'cls': C['cls'], 'op': op, 'postk': C['post'], '_impl': impl}})
         finally:
